@@ -1177,7 +1177,9 @@ def args_oneline(check: Check, repo: Repo, rule: str = "ARGS-ONELINE") -> None:
     cands = [s for s in walk_body(fn) if isinstance(s, ast.If) and any(one_line_value(r) for r in s.body)]
     if len(cands) != 1:
         raise AnalysisError("print_args: the one-line branch was not found")
-    test = cands[0].test
+    from sa.tables import inline_locals
+
+    test = inline_locals(cands[0].test, fn, keep={"args"})  # `has_description = any(...)`; `if not has_description:`
     bad = []
     for d1, d2 in itertools.product((None, "text"), repeat=2):
         args = {"a": Rec(description=d1), "b": Rec(description=d2)}
